@@ -5,7 +5,7 @@ import PncProofs.C01Files
 (array-level theorems: PncProofs/C02.lean, PncProofs/ZipLemmas.lean; index lemmas: PncProofs/SliceLemmas.lean)
 -/
 namespace Props.C02
-open Arr PFile Props.C01
+open Arr PFile Props.C01 Props.C04
 
 /-! ## the file operation: which cell of the source a cell of the sliced variable is -/
 
@@ -47,5 +47,62 @@ theorem sliceVar_zip_get (f : File) (sels : List (String × PSel)) (idx : List (
     exact zipSel_get L _ (v.dims.map f.dimLen) v.data d i hv.2
       (zSelsIn_map _ _ v.dims (fun k _ => selOfDim_lt f sels idx true hidx k)) hl hd
   · cases hs
+
+/-! ## the file operation as a whole -/
+
+theorem isZipSel_false (sels : List (String × PSel)) (k : String) : isZipSel sels false k = false := by
+  unfold isZipSel
+  cases lookupSel sels k <;> simp
+
+/-- **C02 (sliceDimensions as a file operation, orthogonal selections).** When at most one index list is given, slicing
+succeeds only with a file that has, for every variable of the input, one variable of the same name and dimensions whose
+cell at any index is the cell of the input variable at the index that takes, on every axis, the entry of that axis'
+selection — any number of variables of any rank, any mix of integers, slices and the one list, in any keyword order. -/
+theorem slice_orth_cells (f r : File) (sels : List (String × PSel)) (newdim : String) (hwf : WF f)
+    (hz : decide ((sels.filter (·.2.isList)).length ≥ 2) = false) (hs : sliceFile f sels newdim = .ok r) :
+    ∃ idx, sliceIdx f sels = .ok idx ∧
+      ∀ v' ∈ r.vars, ∃ v ∈ f.vars, v'.name = v.name ∧ v'.dims = v.dims ∧ v'.attrs = v.attrs ∧
+        ∀ i, Arr.get v'.data i =
+          (mapIdx ((v.dims.map (selOfDim f sels idx false)).map selIdxs) i).bind (Arr.get v.data) := by
+  unfold sliceFile at hs
+  split at hs
+  · cases hs
+  · split at hs
+    · cases hs
+    · simp only at hs
+      split at hs
+      · cases hs
+      · split at hs
+        · cases hs
+        · rename_i idx hidx
+          split at hs
+          · rename_i vars hvars
+            have e := (Except.ok.inj hs).symm
+            subst e
+            refine ⟨idx, hidx, ?_⟩
+            intro v' hv'
+            simp only at hv'
+            rw [hz] at hvars
+            obtain ⟨v, hvm, hsv⟩ := mapM_except_mem _ _ _ hvars v' hv'
+            have hn : ¬ (v.dims.filter (isZipSel sels false)).length ≥ 2 := by
+              have : v.dims.filter (isZipSel sels false) = [] := by
+                rw [List.filter_eq_nil_iff]
+                intro k _
+                simp [isZipSel_false]
+              rw [this]
+              simp
+            have hdims := (sliceVar_orth_get f sels idx false _ newdim v v' (hwf v hvm) hidx hn hsv []).1
+            refine ⟨v, hvm, ?_, hdims, ?_, fun i => (sliceVar_orth_get f sels idx false _ newdim v v' (hwf v hvm) hidx hn hsv i).2⟩
+            · unfold sliceVar at hsv
+              simp only [hn, if_false] at hsv
+              have e := (Except.ok.inj hsv).symm
+              subst e
+              rfl
+            · unfold sliceVar at hsv
+              simp only [hn, if_false] at hsv
+              have e := (Except.ok.inj hsv).symm
+              subst e
+              rfl
+          · cases hs
 
 end Props.C02
